@@ -35,7 +35,7 @@ PROP = {
                    "the k-th element and touches nothing else; every created datatype is freed exactly once, the message's datatype is committed before use, moved-from skeletons free nothing. "
                    "The model is tied to /repo and to Open MPI by a differential run: logged PMPI calls, packed elements, destination memory."),
     "level_note": ("Trusted: Lean kernel, the hand transcription MultiModel/Mpi.lean, MPI's typemap semantics (hypothesis, validated through MPI_Pack/MPI_Unpack of Open MPI on every run), "
-                   "Int for ptrdiff_t/MPI_Aint/int. The correspondence compares the exact sequence of datatype calls: a rewrite that builds the same typemap through different MPI calls needs the model updated."),
+                   "Int for ptrdiff_t/MPI_Aint/int. The correspondence compares the exact sequence of datatype calls next to the property's observable (packed elements, cells written by unpack, ledger balance): a rewrite that builds the same typemap through different MPI calls breaks the correspondence and is reported once as `VIOLATION ... no-failing-input-found` until the model is updated; an input whose observable differs is reported as the failing input."),
 }
 
 
